@@ -147,7 +147,8 @@ PLANS['C08'] = dict(
 )
 PLANS['C09'] = dict(
     engine='registry', level='exploration', jobs=lambda tier: both(tier, (16, 600), (16, 6000)),
-    minimums=lambda t: {'evaluations': 20000, 'rebuilds': 50, 'replay_probes': 200, 'removals_with_sibling_left': 100},
+    minimums=lambda t: {'evaluations': 20000, 'rebuilds': 50, 'replay_probes': 200, 'removals_with_sibling_left': 100,
+                        'bookkeeping_queries_with_None_required': 500},
     rule='Random register/unregister/subscribe/unsubscribe/rebuild histories (overwrites, identical re-registration, '
          'register(None), unregister with identical/equal/other value, shared key prefixes) compared after every step '
          'with a ledger through registered/allRegistrations/allSubscriptions/subscribed; periodically a replayed twin and '
